@@ -151,7 +151,7 @@ def check_program(w, prog):
 
 
 def _worker(rank, n, size):
-    w = world.World(world.POP_THREE)
+    w = world.World(world.POP_MIXED)
     st = dict(programs=0, ok=0, rejected=0, states=0, edges=0, pairs=0, steps=0,
               uncovered=0, with_define=0, viol={}, sample=None, shapes=set())
     for idx, (sz, prog) in enumerate(gen_k.extended_programs(size)):
@@ -236,7 +236,7 @@ def replay(path):
     text = v['witness']['script']
     print('script:', text)
     print('recorded:', v['sig'], v['witness']['detail'])
-    w = world.World(world.POP_THREE)
+    w = world.World(world.POP_MIXED)
     res = w.run_script(text)
     print('run now: accepted=%r abort=%r trace=%r' % (res.accepted, res.abort, res.trace))
     return False
